@@ -19,19 +19,26 @@ let dump_ival (iv : ival) =
   "[" ^ str_of_z iv.iv_addr ^ " " ^ str_of_z iv.iv_size ^ " " ^ (if h = "" then "-" else h) ^ " B{" ^
   cat "," (sorted (List.map (fun b -> (if i_of b.ib_id >= 900 then "pad" else string_of_int (i_of b.ib_id)) ^ "@" ^ str_of_z b.ib_off ^ "+" ^ str_of_z b.ib_size ^ (if b.ib_code then "c" else "d")) iv.iv_blocks)) ^
   "} X{" ^ dm iv.iv_symex ^ "} " ^ cat " " (List.map (fun t -> "T{" ^ dm t ^ "}") iv.iv_tabs) ^ "]"
+(* the nop: its bytes in hex, or "abi:<isa>" for the table of the model *)
+let read_nop () =
+  let t = next () in
+  if Stdlib.String.length t > 4 && Stdlib.String.sub t 0 4 = "abi:" then abi_nop (nat_of_int (int_of_string (Stdlib.String.sub t 4 (Stdlib.String.length t - 4))))
+  else bytes_of_hex t
 let handle = function
   | "splitjoin" ->
     let iv = read_ival () in
     let align = listn (fun () -> let id = nn () in let a = next_z () in (id, a)) in
+    let nop = read_nop () in
     let parts = split_byte_interval iv in
     let s1 = cat " " (List.map dump_ival parts) in
-    (match join_byte_intervals (z_of_int 1) align (nat_of_int 900) parts with
+    (match join_byte_intervals nop align (nat_of_int 900) parts with
      | Err e -> s1 ^ " || err " ^ err_name e
      | Ok j -> s1 ^ " || " ^ dump_ival j)
   | "join" ->
     let parts = listn read_ival in
     let align = listn (fun () -> let id = nn () in let a = next_z () in (id, a)) in
-    (match join_byte_intervals (z_of_int 1) align (nat_of_int 900) parts with
+    let nop = read_nop () in
+    (match join_byte_intervals nop align (nat_of_int 900) parts with
      | Err e -> "err " ^ err_name e
      | Ok j -> dump_ival j)
   | c -> failwith ("unknown command " ^ c)
